@@ -1145,8 +1145,8 @@ func (el edgeList) Len() int {
 }
 
 func (el edgeList) Less(i, j int) bool {
-	if el[i].Weight != el[j].Weight {
-		return abs64(el[i].Weight) > abs64(el[j].Weight)
+	if wi, wj := abs64(el[i].Weight), abs64(el[j].Weight); wi != wj {
+		return wi > wj
 	}
 
 	from1 := el[i].Src.Info.PrintableName()
@@ -1157,8 +1157,13 @@ func (el edgeList) Less(i, j int) bool {
 
 	to1 := el[i].Dest.Info.PrintableName()
 	to2 := el[j].Dest.Info.PrintableName()
+	if to1 != to2 {
+		return to1 < to2
+	}
 
-	return to1 < to2
+	// Same magnitude and names: order by sign so that the result does not
+	// depend on the order the edges come out of the map.
+	return el[i].Weight > el[j].Weight
 }
 
 func (el edgeList) Swap(i, j int) {
